@@ -229,9 +229,9 @@ Verbatim(text, val, tail) == LET lx == LexString(text) IN lx.ok /\ lx.val = Utf1
 TitleVerbatim(text, val) == LET r == TitleText(text) IN r.closed /\ r.text = val
 
 \* Named deviations of today's template (HtmlEscape applied inside a JS literal) and their triggers.
-DevEntityInScript     == "DevEntityInScript"       \* & ' " < > become &#NN; which <script> does not decode
-DevRawBackslash       == "DevRawBackslash"         \* \ is copied: it starts an escape sequence / eats the closing quote
-DevRawLineTerminator  == "DevRawLineTerminator"    \* LF / CR are copied: unterminated literal (or line continuation)
+DevEntityInScript     == "DevEntity"       \* & ' " < > become &#NN; which <script> does not decode
+DevRawBackslash       == "DevBackslash"         \* \ is copied: it starts an escape sequence / eats the closing quote
+DevRawLineTerminator  == "DevNewline"    \* LF / CR are copied: unterminated literal (or line continuation)
 Has(val, S) == \E i \in 1..Len(val) : val[i] \in S
 Devs(val) == (IF Has(val, {AMP, SQ, DQ, LT, GT}) THEN {DevEntityInScript} ELSE {})
         \cup (IF Has(val, {BS}) THEN {DevRawBackslash} ELSE {})
